@@ -30,6 +30,9 @@ type c07Type struct {
 
 type c07Model struct {
 	Types map[string]*c07Type `json:"types"` // "@root" is the root
+	// SelfRoot: the root schema is also registered as the type @root (otherwise a
+	// reference to @root names a type that does not exist)
+	SelfRoot bool `json:"selfRoot,omitempty"`
 }
 
 func (t *c07Type) text() string {
@@ -83,6 +86,9 @@ func (t *c07Type) text() string {
 
 func (m *c07Model) project() *project {
 	p := &project{Root: m.Types["@root"].text(), Types: map[string]string{}}
+	if m.SelfRoot {
+		p.Self = "@root"
+	}
 	for n, t := range m.Types {
 		if n != "@root" {
 			p.Types[n] = t.text()
@@ -137,6 +143,9 @@ func (m *c07Model) merge(name string, stack map[string]bool, memo map[string]*c0
 	}
 	for _, parent := range t.AllOf {
 		pt, ok := m.Types[parent]
+		if parent == "@root" && !m.SelfRoot {
+			ok = false
+		}
 		if !ok {
 			res.err = "missing"
 			break
@@ -217,7 +226,9 @@ func c07Case(w *core.W, m *c07Model) {
 			return
 		}
 		err = root.Check()
-		if err != nil {
+		if err != nil || refErr != "" {
+			// (a project that should have been refused is reported below; its example
+			// and property listing may not even terminate)
 			return
 		}
 		ex, exErr = root.Example()
@@ -256,7 +267,7 @@ func c07Case(w *core.W, m *c07Model) {
 		fail("no-panic", fmt.Sprintf("%v", rec), map[string]string{"site": site})
 		return
 	}
-	if c07WrapSample(m) {
+	if c07WrapSample(m) && (refErr == "") == (err == nil) {
 		c07Wrapped(w, m, p, err, ex, exErr, fail)
 	}
 	code := errCode(err)
@@ -323,7 +334,7 @@ func c07Case(w *core.W, m *c07Model) {
 // c07WrapSample: a deterministic eighth of the models also runs as a nested heir.
 func c07WrapSample(m *c07Model) bool {
 	t := m.Types["@root"]
-	if t == nil || t.Shape != "object" {
+	if t == nil || t.Shape != "object" || m.SelfRoot {
 		return false
 	}
 	h := len(t.Own)*7 + len(t.AllOf)*3 + len(t.AP)
@@ -455,7 +466,7 @@ func c07Run(w *core.W) {
 	}
 	roots = append(roots, &c07Type{Shape: "scalar"})
 	for _, o := range [][]c07Key{nil, {k("k1")}, {k("k2")}, {ko("k2"), k("a1")}} {
-		for _, al := range [][]string{nil, {"@b"}, {"@c"}, {"@b", "@c"}, {"@a"}, {"@x"}} {
+		for _, al := range [][]string{nil, {"@b"}, {"@c"}, {"@b", "@c"}, {"@a"}, {"@x"}, {"@root"}} {
 			for _, ap := range []string{"", "true", "false"} {
 				as = append(as, obj(o, al, ap))
 			}
@@ -486,7 +497,13 @@ func c07Run(w *core.W) {
 			}
 			for _, b := range bs {
 				for _, c := range cs {
-					c07Case(w, &c07Model{Types: map[string]*c07Type{"@root": r, "@a": a, "@b": b, "@c": c}})
+					m := &c07Model{Types: map[string]*c07Type{"@root": r, "@a": a, "@b": b, "@c": c}}
+					c07Case(w, m)
+					// where somebody refers to @root: the same project with the root
+					// registered under that name (inheritance through the root itself)
+					if len(a.AllOf) == 1 && a.AllOf[0] == "@root" {
+						c07Case(w, &c07Model{Types: m.Types, SelfRoot: true})
+					}
 				}
 			}
 		}
